@@ -111,6 +111,7 @@ def st_async_case(draw: st.DrawFn, tier: str) -> dict:
         "service_init_yields": draw(st.sampled_from([0, 0, 1, 2, 4])),
         "service_exit_yields": draw(st.sampled_from([0, 0, 1, 3])),
         "handler_sleep": draw(st.sampled_from([0.0, 0.0, 1.0])),
+        "burst": draw(st.sampled_from([1, 1, 2, 3])),
     }
 
 
@@ -395,6 +396,7 @@ async def _async_main(case: dict) -> dict:
 
     fy = int(case.get("factory_yields", 0))
     lay = int(case.get("listener_aclose_yields", 1))
+    burst = int(case.get("burst", 1))
 
     class Backend(VerifBackend):
         __slots__ = ()
@@ -463,10 +465,12 @@ async def _async_main(case: dict) -> dict:
                     if case["proto"] == "tcp":
                         c = MemStreamTransport(backend, peername=("127.0.0.1", 40000 + n_clients))
                         open_l[-1].connect(c)
-                        c.feed(b"ping\n")
+                        c.feed(b"ping\n" * burst)
                     else:
                         try:
-                            open_l[-1].deliver(b"ping", ("127.0.0.1", 40000 + n_clients))
+                            # (several datagrams of one client: all but the first wait in its queue while the handler is busy)
+                            for _ in range(burst):
+                                open_l[-1].deliver(b"ping", ("127.0.0.1", 40000 + n_clients))
                         except RuntimeError:
                             # the serve task group is already shutting down: with the real asyncio datagram protocol the
                             # same start_soon() failure ends in the loop's exception handler and the datagram is dropped
